@@ -75,7 +75,7 @@ class PersistentProcessWorker(PersistentWorker, ProcessWorker):
     # Child side
     def do_work(self):
         while not self._stop:
-            args = copy.deepcopy(self._args)
+            args = list(copy.deepcopy(self._args)) # default args can be a tuple, we need something we can assign to
             kwargs = copy.deepcopy(self._kwargs)
             try:
                 mp.connection.wait([self._args_pipe.child_end])
